@@ -14,8 +14,8 @@ META = dict(
               "refs, git<->breezy URLs, parent location) with the inverse laws stated on the domain each pair defines; "
               "TLC proves the laws on the transcription over bounded grammars and exports the cases; the real Python "
               "and Rust functions are run both ways on every case and TLC judges the recorded results",
-    level_text="Exhaustive over bounded grammars that contain the escape characters: all strings up to 4 (5 in thorough) "
-               "tokens over {_, space, form feed, s, c, a} for escaping, paths with non-UTF-8 bytes for file ids, names "
+    level_text="Exhaustive over bounded grammars that contain the escape characters: all strings up to 5 tokens "
+               "over {_, space, form feed, s, c, a} for escaping, paths with non-UTF-8 bytes for file ids, names "
                "built from the ref prefixes, and URL records (every known git scheme and rsync style, user, port, path "
                "segments with ~ space , = %, branch | ref | neither incl. HEAD). Laws are TLC-checked on the "
                "transcription, each case is executed on the real functions (set_parent/get_parent on a real local git "
